@@ -1,17 +1,62 @@
-import Sucds.Proofs.DP
-import Sucds.Proofs.DacLevels
-/-! # C10 — DacsOpt is lossless and respects the level limit (partial)
+import Sucds.Proofs.DacsAccess
+import Sucds.Proofs.DacsOptWidths
+import Sucds.Proofs.IndexIter
+/-! # C10 — DacsOpt is lossless and respects the level limit for every input
 
-Proved: (a) the dynamic program as written (`scan` with the `usize::MAX` initialisation and the `<=`
-update, first strict minimum over the level count) — along its own reconstruction path the table entry
-is the true cost, the three `assert_eq!` of the reconstruction cannot fire (`recon_full`); (b) the level
-walk of `access` is lossless for arbitrary positive widths (`walk_ok`). Missing: the glue between the
-array-level model (`DacO.optWidths`, `DacO.build`, `DacO.access`) and these function-level results. -/
+For every build configuration, every list of `usize` values (fewer than 2^57 of them) and every
+`max_levels`: `from_slice` answers `Err` exactly when `max_levels ∉ 1..=64` (checked before anything else);
+otherwise it succeeds without panicking — none of the `assert!`s of `compute_opt_widths`/`build` can fire,
+every `push_int` fits — and the result returns `access(i) = vals[i]` for `i < n` and `None` for every other
+`i`, reports `len = n`, iterates the input in order, has between 1 and `min(max_levels, 64)` levels and, for
+non-empty input, positive level widths summing to the bit length of the maximum. -/
 namespace Sucds.C10
 open Sucds
 
-theorem walk_lossless : ∀ (ws : List Nat) (vs : List Nat) (pos : Nat), ws ≠ [] → pos < vs.length →
-    (∀ v ∈ vs, v < 2^ws.sum) → Dac.walk ws vs pos = vs[pos]! := Dac.walk_ok
+def Statement : Prop :=
+  ∀ (c : Cfg) (vals : List Nat) (ml : Option Nat), (∀ v ∈ vals, v < 2^64) → vals.length < 2^57 →
+    (¬ (1 ≤ ml.getD 64 ∧ ml.getD 64 ≤ 64) → DacO.fromSlice c vals ml = .ok none) ∧
+    (1 ≤ ml.getD 64 ∧ ml.getD 64 ≤ 64 →
+      ∃ d, DacO.fromSlice c vals ml = .ok (some d) ∧
+        d.len = .ok vals.length ∧ (∀ i, d.access c i = .ok vals[i]?) ∧
+        1 ≤ d.widths.length ∧ d.widths.length ≤ min (ml.getD 64) 64 ∧
+        (vals ≠ [] → (∀ w ∈ d.widths, 1 ≤ w) ∧ d.widths.sum = SpecX.bitlen (vals.foldl max 0)))
 
-theorem reconstruction_asserts_hold : type_of% (@DP.recon_full) := @DP.recon_full
+theorem holds : Statement := by
+  intro c vals ml hv hn
+  refine ⟨?_, ?_⟩
+  · intro hbad
+    unfold DacO.fromSlice
+    have : ml.getD 64 < 1 ∨ 64 < ml.getD 64 := by omega
+    rw [if_pos this]
+  · intro hml
+    by_cases hne : vals = []
+    · subst hne
+      refine ⟨DacO.default, ?_, rfl, ?_, ?_, ?_, fun h => absurd rfl h⟩
+      · unfold DacO.fromSlice
+        have : ¬ (ml.getD 64 < 1 ∨ 64 < ml.getD 64) := by omega
+        rw [if_neg this]; rfl
+      · intro i; rw [DacO.default_access]; simp
+      · decide
+      · show 1 ≤ min (ml.getD 64) 64; omega
+    · obtain ⟨ws, hopt, hwne, hwlen, hwpos, hwsum, _⟩ := DacO.optWidths_ok c vals hne hv hn (ml.getD 64) hml.1 hml.2
+      have hmax : vals.foldl max 0 < 2^64 := DacsOptW.maxv_lt vals hv
+      have hsum64 : ws.sum ≤ 64 := by rw [hwsum]; exact DacsOptW.bitlen_le_64 _ hmax
+      have hfit : ∀ v ∈ vals, v < 2^ws.sum := by
+        intro v hvm
+        rw [hwsum]
+        have h1 : v ≤ vals.foldl max 0 := (DacsOptW.foldl_max_ge vals 0).2 v hvm
+        exact Nat.lt_of_lt_of_le (DacsOptW.lt_two_pow_bitlen v)
+          (Nat.pow_le_pow_right (by decide) (DacsOptW.bitlen_mono h1))
+      obtain ⟨d, hd, _, hw, hl, ha⟩ := DacO.fromSlice_ok_of_widths c vals ml ws hml hne hopt hwne hwpos hsum64 hfit
+      refine ⟨d, hd, hl, ha, ?_, ?_, fun _ => ⟨?_, ?_⟩⟩
+      · rw [hw]; exact List.length_pos_iff.mpr hwne
+      · rw [hw]; exact hwlen
+      · rw [hw]; exact hwpos
+      · rw [hw]; exact hwsum
+
+/-- iteration: the index iterator over a lossless structure yields the input then `None` forever, exact hints -/
+theorem iteration (vals : List Nat) (acc : Nat → Option Nat) (hacc : ∀ i, acc i = vals[i]?) (n : Nat) :
+    IndexIter.runN vals.length acc ⟨0⟩ n =
+      (List.range n).map (fun j => (vals[0 + j]?, (vals.length - (0 + j), some (vals.length - (0 + j))))) :=
+  IndexIter.runN_spec vals acc (fun i _ => hacc i) n 0 (Nat.zero_le _)
 end Sucds.C10
